@@ -19,6 +19,7 @@ func init() { register("C20", checkC20) }
 func checkC20(c *Ctx) {
 	c20FirstStartCrash(c)
 	c20RestructureCrash(c)
+	c20StartFaults(c)
 	c20ConcurrentUnpair(c)
 	c20ListingDuringRemoval(c)
 	c20ForeignStorage(c)
